@@ -117,6 +117,7 @@
 #define PARAM_DUAL_RESOLVEGAP    25
 #define PARAM_MAX_NOSOLVE        500
 #define PARAM_MAX_NOPROG         300
+#define PARAM_EXACT_PERTURB      (1.0/1048576)	/* size of a perturbation where the tolerance is zero */
 #define PARAM_NOPROG_FACTOR      15
 
 /* numerical parameters */
